@@ -5,11 +5,14 @@ import (
 	"encoding/base64"
 	"encoding/json"
 	"fmt"
+	"io"
+	"math"
 	"math/rand"
 	"os"
 	"path/filepath"
 	"reflect"
 	"strings"
+	"testing/iotest"
 
 	"github.com/rkosegi/yaml-toolkit/dom"
 	"github.com/rkosegi/yaml-toolkit/k8s"
@@ -200,6 +203,29 @@ func c17Load(r *rand.Rand, malformed bool) Case {
 	if pn := guard(func() { m, err = k8s.ManifestFromBytes(d.text) }); pn != "" {
 		return Case{Kind: "load", Desc: map[string]any{"text": string(d.text), "panic": pn}, Fail: []string{"panic in ManifestFromBytes: " + pn}, Nontrivial: true,
 			Coq: "CLoad " + gDocKVs(ctl) + " None"}
+	}
+	// the same text through readers that deliver it in small pieces (pipes, network bodies, decompressors do)
+	for ri, mk := range []func() io.Reader{
+		func() io.Reader { return iotest.HalfReader(bytes.NewReader(d.text)) },
+		func() io.Reader { return iotest.OneByteReader(bytes.NewReader(d.text)) },
+		func() io.Reader {
+			h := len(d.text) / 2
+			return io.MultiReader(bytes.NewReader(d.text[:h]), bytes.NewReader(d.text[h:]))
+		},
+	} {
+		var m2 k8s.Manifest
+		var err2 error
+		if pn := guard(func() { m2, err2 = k8s.ManifestFromReader(mk()) }); pn != "" {
+			fail = append(fail, fmt.Sprintf("panic in ManifestFromReader (reader %d): %s", ri, pn))
+		} else if (err2 == nil) != (err == nil) {
+			fail = append(fail, fmt.Sprintf("ManifestFromReader through a piecewise reader (%d): error=%v, from bytes: error=%v", ri, err2, err))
+		} else if err == nil {
+			s1, b1 := itemsOf(m)
+			s2, b2 := itemsOf(m2)
+			if !reflect.DeepEqual(s1, s2) || !reflect.DeepEqual(b1, b2) {
+				fail = append(fail, fmt.Sprintf("ManifestFromReader through a piecewise reader (%d) loaded other items than ManifestFromBytes", ri))
+			}
+		}
 	}
 	if (err == nil) != d.loadOK {
 		fail = append(fail, fmt.Sprintf("ManifestFromBytes error=%v, expected success=%v", err, d.loadOK))
@@ -414,6 +440,20 @@ func c17Embedded(r *rand.Rand, idx int, format int) Case {
 			}
 		}
 		want = nodeToAny(cb)
+		if format == 1 && r.Intn(5) == 0 {
+			// a document the JSON encoder rejects: Save reports the error and the manifest file is untouched
+			before, _ := os.ReadFile(file)
+			cb.AddValue("unencodable", dom.LeafNode(math.Inf(1)))
+			serr := doc.Save()
+			after, _ := os.ReadFile(file)
+			if serr == nil {
+				fail = append(fail, "Save of a document the encoder rejects returned no error")
+			}
+			if !bytes.Equal(before, after) {
+				fail = append(fail, fmt.Sprintf("a failed Save changed the manifest file (%d bytes before, %d after)", len(before), len(after)))
+			}
+			cb.Remove("unencodable")
+		}
 		if err := doc.Save(); err != nil {
 			fail = append(fail, "Save failed: "+err.Error())
 			return
